@@ -6,12 +6,11 @@
    "The score-only and the indices variants return the same value": one model function returns both
    (the const-generic flag only guards writes to the index vector / back-pointer cells); the harness
    runs both variants of every entry point on every case.
-   PARTIAL: C03_linear_score covers every algorithm that scores through calculate_score and the
-   single-character scorers (greedy, substring, prefix, postfix, exact, the equal-length and tight-window
-   shortcuts); the DP's score/alignment coherence is validated by the correspondence + fzf oracle
-   (exhaustively on small strings in the thorough tier), not yet proved. *)
+   C03_linear_score covers every algorithm that scores through calculate_score and the single-character
+   scorers; C03_dp_score covers the optimal entry point including the DP (invariant: every score cell's
+   value is the fzf state of the partial alignment reconstruct returns from it). *)
 From Coq Require Import NArith List Bool.
-From NV Require Import Model.Matcher Spec.Matching Spec.Statements Proofs.ScoreFacts.
+From NV Require Import Model.Matcher Spec.Matching Spec.Statements Proofs.ScoreFacts Proofs.DPScoreFacts.
 Import ListNotations.
 Local Open Scope N_scope.
 
@@ -26,6 +25,11 @@ Proof. exact ScoreFacts.C03_linear_score_weak. Qed.
 
 Theorem C03_no_wrap : C03_no_wrap_stmt.
 Proof. exact ScoreFacts.C03_no_wrap_weak. Qed.
+
+(* the optimal (DP) entry point too: the score of the best cell is the fzf scheme on the reconstructed
+   alignment *)
+Theorem C03_dp_score : DP_score_stmt.
+Proof. exact DPScoreFacts.DP_score. Qed.
 
 (* the same alignment gets the same score from every (linear) algorithm: both equal fzf_score *)
 Theorem C03_same_alignment :
@@ -56,5 +60,6 @@ Print Assumptions C03_bonus_table.
 Print Assumptions C03_presets.
 Print Assumptions C03_linear_score.
 Print Assumptions C03_no_wrap.
+Print Assumptions C03_dp_score.
 Print Assumptions C03_same_alignment.
 Print Assumptions C03_naive_statements_refuted.
